@@ -5,6 +5,7 @@ import (
 	"encoding/json"
 	"errors"
 	"fmt"
+	"math"
 	"strconv"
 	"strings"
 	"testing"
@@ -49,6 +50,13 @@ func pokeWithCustomHooks(text string) {
 	_, _ = sem.Parse(text)
 	_, _ = sem.ParseTag(text)
 	_, _ = sem.Compare(text, text)
+	// second stage: a Formatter that fails (after writing something), used once, before the defaults come back
+	sem.Formatter = func(buf []byte, v sem.Ver, f sem.Format) ([]byte, error) {
+		return append(buf, "part"...), errors.New("formatter refused")
+	}
+	_, _ = v.String(), v.StringTag()
+	_ = fmt.Sprintf("%s %t", v, v)
+	_, _ = v.MarshalText()
 }
 
 func setLimit(l int) func() {
@@ -367,7 +375,7 @@ func TestCheck(t *testing.T) {
 	})
 
 	r.Phase(fmt.Sprintf("W: %d conventional special texts (null, nil, latest, HEAD, v, ...) x limits through every entry point", len(ref.ConventionalTexts)), func() {
-		for _, lim := range []int{0, -1, 5} {
+		for _, lim := range []int{0, -1, 5, math.MaxInt, math.MaxInt - 1, 1 << 31, 1 << 32} {
 			restore := setLimit(lim)
 			r.Serial(func(w *vkit.W) {
 				for _, text := range ref.ConventionalTexts {
